@@ -1120,7 +1120,13 @@ func addFaults(r *core.RNG, sc *cliScenario, x *cliExec) *cliScenario {
 					at = cand[r.Intn(len(cand))]
 				}
 			}
-			if r.Chance(1, 6) && len(tr) > 4 {
+			rsWrites := false
+			for _, a := range rs.Argv {
+				if a == "-o" || strings.HasPrefix(a, "--output") || strings.HasPrefix(a, "-o") && len(a) > 2 {
+					rsWrites = true
+				}
+			}
+			if r.Chance(1, 6) && len(tr) > 4 && !rsWrites {
 				// and a third one inside the second
 				in2 := &runStep{Argv: append([]string(nil), rs.Argv...), Stdin: rs.Stdin, Chunks: rs.Chunks, StdinFile: rs.StdinFile, StdinOffset: rs.StdinOffset}
 				a2, _ := json.Marshal(outsideEvent{Nested: in2})
